@@ -340,7 +340,7 @@ Proof.
   assert (E : veq (mat_vec (normal_mat m D) sol) (normal_rhs m D)).
   { apply (forallb_combine_veq _ _ _ _ ltac:(rewrite LN, normal_rhs_length by exact HL; reflexivity) H).
     intros r b Hp. apply Qle_bool_iff in Hp.
-    assert (Z : 0 * (dot (vabs r) (vabs sol) + Qabs b) + 0 * 0 == 0) by ring. rewrite Z in Hp.
+    assert (Z : 0 * (dot (vabs r) (vabs sol) + Qabs b) == 0) by ring. rewrite Z in Hp.
     apply Qabs_le_0 in Hp. lra. }
   assert (G : forall d, gdot D sol d == 0).
   { intros d. rewrite (gdot_normal m D sol d HL). rewrite (dot_veq _ _ d d E (veq_refl d)). ring. }
